@@ -67,6 +67,8 @@ def long_stall(t, rng, result):
     import socket, time, hashlib
     name = "/stall24m.bin"
     data = rng.bytes(1 << 20) * 24
+    # a tree of its own: the other phases enumerate the files of theirs (byte-wise transport scripts over 24 MiB take minutes)
+    t = treegen.generate(rng.fork("stall-tree"), depth=0, n_files=2, symlinks=False, plant_secrets=False, tag="c05-stall", root_name="root")
     t.add_file(name, data)
     srv = server.Server(t.root, threads=2)
     try:
@@ -99,6 +101,7 @@ def long_stall(t, rng, result):
         result.update({"announced": int(m.group(1)) if m else None, "received": len(body), "end": end, "same": hashlib.sha256(body).digest() == hashlib.sha256(data).digest(), "status_line": head.split(b"\r\n", 1)[0].decode("latin-1"), "size": len(data)})
     finally:
         srv.cleanup()
+        t.cleanup()
 
 
 def slow_readers(c, t, rng):
